@@ -57,9 +57,11 @@ class Rec:
     pass
 
 
-def run_instrumented(P, cfg, jac="callable", stop_at=None, use_callback=True, extra=None, fwrap=None):
+def run_instrumented(P, cfg, jac="callable", stop_at=None, use_callback=True, extra=None, fwrap=None, scribble=False):
     """Run the implementation on problem P with configuration cfg, logging every user call.
-    stop_at: callback returns True at that (1-based) call. extra: further keyword arguments."""
+    stop_at: callback returns True at that (1-based) call. extra: further keyword arguments.
+    scribble: the user's functions overwrite the array they were handed after using it (a legitimate thing for a
+    user function to do: the package must hand them copies, the model's values cannot be disturbed by it)."""
     from lbfgsb import minimize_lbfgsb
 
     R = Rec()
@@ -69,11 +71,15 @@ def run_instrumented(P, cfg, jac="callable", stop_at=None, use_callback=True, ex
     def F(x):
         v = P.f(x)
         R.flog.append((np.array(np.real(x), dtype=float, copy=True), v))
+        if scribble and isinstance(x, np.ndarray) and x.flags.writeable and not np.iscomplexobj(x):
+            x += 0.75
         return v
 
     def G(x):
         v = np.asarray(P.g(x), dtype=float)
         R.glog.append((np.array(x, dtype=float, copy=True), v.copy()))
+        if scribble and isinstance(x, np.ndarray) and x.flags.writeable:
+            x -= 1.25
         return v
 
     def cb(xk, state):
